@@ -208,6 +208,10 @@ func (P *Prog) proveBounds(path []ast.Node, info *types.Info) (bool, string) {
 		if why, ok := P.sortLessProver(path, info, X, I); ok {
 			return true, why
 		}
+		// (c') Less/Swap method of a sort.Interface implementation over the receiver
+		if why, ok := P.sortMethodProver(path, info, X, I); ok {
+			return true, why
+		}
 		// (b) element of lo.Range(len(X)) handed to the closure by AsyncMapReduce / lo.Map
 		if why, ok := P.rangeParamProver(path, info, X, I); ok {
 			return true, why
@@ -568,6 +572,131 @@ func (P *Prog) sortLessProver(path []ast.Node, info *types.Info, X, I ast.Expr) 
 		break
 	}
 	return "", false
+}
+
+// sortMethodProver: recv[i] in the Less or Swap method of a named slice type whose Len method
+// returns len(recv): package sort calls these with 0 <= i, j < Len() only. The methods must
+// not be used by the module itself (called directly or taken as values), and the receiver
+// must not be reassigned in the method.
+func (P *Prog) sortMethodProver(path []ast.Node, info *types.Info, X, I ast.Expr) (string, bool) {
+	xid, ok1 := X.(*ast.Ident)
+	iid, ok2 := I.(*ast.Ident)
+	if !ok1 || !ok2 {
+		return "", false
+	}
+	var decl *ast.FuncDecl
+	for _, n := range path {
+		if _, isLit := n.(*ast.FuncLit); isLit {
+			return "", false
+		}
+		if d, ok := n.(*ast.FuncDecl); ok {
+			decl = d
+		}
+	}
+	if decl == nil || decl.Recv == nil || len(decl.Recv.List) != 1 || len(decl.Recv.List[0].Names) != 1 || decl.Body == nil {
+		return "", false
+	}
+	if decl.Name.Name != "Less" && decl.Name.Name != "Swap" {
+		return "", false
+	}
+	recv := info.Defs[decl.Recv.List[0].Names[0]]
+	if recv == nil || info.Uses[xid] != recv {
+		return "", false
+	}
+	named, ok := recv.Type().(*types.Named)
+	if !ok {
+		return "", false
+	}
+	if _, isSlice := named.Underlying().(*types.Slice); !isSlice {
+		return "", false
+	}
+	// signature (i, j int) and I is one of the two
+	sig, _ := info.Defs[decl.Name].Type().(*types.Signature)
+	if sig == nil || sig.Params().Len() != 2 {
+		return "", false
+	}
+	isParam := false
+	for k := 0; k < 2; k++ {
+		if types.Object(sig.Params().At(k)) == info.Uses[iid] {
+			isParam = true
+		}
+	}
+	if !isParam {
+		return "", false
+	}
+	// neither the receiver nor the index is assigned in the body
+	// (an element write `s[i] = …` — Swap — leaves the slice itself alone)
+	objs := map[types.Object]bool{recv: true, info.Uses[iid]: true}
+	reassigned := false
+	ast.Inspect(decl.Body, func(nd ast.Node) bool {
+		whole := func(e ast.Expr) {
+			if id, ok := e.(*ast.Ident); ok && objs[info.Uses[id]] {
+				reassigned = true
+			}
+		}
+		switch st := nd.(type) {
+		case *ast.AssignStmt:
+			for _, l := range st.Lhs {
+				whole(l)
+			}
+		case *ast.IncDecStmt:
+			whole(st.X)
+		case *ast.RangeStmt:
+			if st.Tok == token.ASSIGN {
+				whole(st.Key)
+				whole(st.Value)
+			}
+		case *ast.UnaryExpr:
+			if st.Op == token.AND {
+				whole(st.X)
+			}
+		}
+		return true
+	})
+	if reassigned {
+		return "", false
+	}
+	// the three methods exist, Len is `return len(recv)`, and the module never uses Less/Swap itself
+	methods := map[string]*types.Func{}
+	for k := 0; k < named.NumMethods(); k++ {
+		methods[named.Method(k).Name()] = named.Method(k)
+	}
+	if methods["Len"] == nil || methods["Less"] == nil || methods["Swap"] == nil {
+		return "", false
+	}
+	lenOK := false
+	for _, pkg := range P.Pkgs {
+		for _, file := range pkg.Syntax {
+			for _, d := range file.Decls {
+				fd, ok := d.(*ast.FuncDecl)
+				if !ok || pkg.TypesInfo.Defs[fd.Name] != types.Object(methods["Len"]) || fd.Body == nil || len(fd.Body.List) != 1 {
+					continue
+				}
+				ret, ok := fd.Body.List[0].(*ast.ReturnStmt)
+				if !ok || len(ret.Results) != 1 || fd.Recv == nil || len(fd.Recv.List) != 1 || len(fd.Recv.List[0].Names) != 1 {
+					continue
+				}
+				if arg, ok := isLenOf(pkg.TypesInfo, ret.Results[0]); ok {
+					if aid, ok := arg.(*ast.Ident); ok && pkg.TypesInfo.Uses[aid] == pkg.TypesInfo.Defs[fd.Recv.List[0].Names[0]] {
+						lenOK = true
+					}
+				}
+			}
+			ast.Inspect(file, func(nd ast.Node) bool {
+				if id, ok := nd.(*ast.Ident); ok {
+					if u := pkg.TypesInfo.Uses[id]; u != nil && (u == types.Object(methods["Less"]) || u == types.Object(methods["Swap"])) {
+						lenOK = false
+						methods["Len"] = nil
+					}
+				}
+				return true
+			})
+		}
+	}
+	if !lenOK || methods["Len"] == nil {
+		return "", false
+	}
+	return "index is a parameter of the " + decl.Name.Name + " method of a sort.Interface implementation whose Len is len of the receiver: package sort passes positions below Len() only, and the module does not call the method itself", true
 }
 
 // rangeParamProver: X[i] inside a closure whose first parameter i ranges over
@@ -1168,6 +1297,81 @@ func (r *Run) scopeFuncs(sc panicScope) map[*ssa.Function]bool {
 	return set
 }
 
+// widenByInterfaceEscape: a value of a module type that a function in scope converts to an
+// interface and hands to a callee without body in the module (sort.Stable, json.Marshal,
+// fmt.Errorf, an encoder) has its methods called from there: the methods of the interface it
+// is converted to, or — for the empty interface — the methods the standard library looks for
+// by name. Those methods, and what they reach, run in this scope although no call edge of the
+// module leads to them.
+func (r *Run) widenByInterfaceEscape(set map[*ssa.Function]bool) {
+	protocol := map[string]bool{"Error": true, "String": true, "GoString": true, "Format": true,
+		"MarshalJSON": true, "MarshalText": true, "UnmarshalJSON": true, "UnmarshalText": true}
+	var work []*ssa.Function
+	for fn := range set {
+		work = append(work, fn)
+	}
+	sort.Slice(work, func(i, j int) bool { return fnName(work[i]) < fnName(work[j]) })
+	for len(work) > 0 {
+		fn := work[len(work)-1]
+		work = work[:len(work)-1]
+		for _, ins := range allInstrs(fn) {
+			mi, ok := ins.(*ssa.MakeInterface)
+			if !ok || mi.Referrers() == nil {
+				continue
+			}
+			escapes := false
+			for _, ref := range *mi.Referrers() {
+				ci, ok := ref.(ssa.CallInstruction)
+				if !ok {
+					continue
+				}
+				c := ci.Common()
+				if c.IsInvoke() {
+					if len(r.P.CG.implementers(c)) == 0 {
+						escapes = true
+					}
+				} else if sc := c.StaticCallee(); sc != nil {
+					if d := r.P.declared(sc); !inModule(d) || d.Blocks == nil {
+						escapes = true
+					}
+				}
+			}
+			if !escapes {
+				continue
+			}
+			iface, _ := mi.Type().Underlying().(*types.Interface)
+			ms := r.P.SSA.MethodSets.MethodSet(mi.X.Type())
+			for i := 0; i < ms.Len(); i++ {
+				sel := ms.At(i)
+				name := sel.Obj().Name()
+				if iface != nil && iface.NumMethods() > 0 {
+					found := false
+					for k := 0; k < iface.NumMethods(); k++ {
+						if iface.Method(k).Name() == name {
+							found = true
+						}
+					}
+					if !found {
+						continue
+					}
+				} else if !protocol[name] {
+					continue
+				}
+				m := r.P.declared(r.P.SSA.MethodValue(sel))
+				if m == nil || !inModule(m) || m.Blocks == nil || set[m] {
+					continue
+				}
+				for g := range r.P.CG.Reachable([]*ssa.Function{m}, nil) {
+					if !set[g] {
+						set[g] = true
+						work = append(work, g)
+					}
+				}
+			}
+		}
+	}
+}
+
 // goroutineContext tells whether fn can run on a goroutine that has no recover.
 func (r *Run) ctxNote(fn *ssa.Function) string {
 	// functions reachable from a go statement's callee without a deferred recover in that callee
@@ -1193,7 +1397,9 @@ func (r *Run) ctxNote(fn *ssa.Function) string {
 func rulePanic(sc panicScope) ruleFn {
 	return func(r *Run) {
 		set := r.scopeFuncs(sc)
-		r.Notes = append(r.Notes, fmt.Sprintf("R7 scope %q: %d functions", sc.label, len(set)))
+		nCG := len(set)
+		r.widenByInterfaceEscape(set)
+		r.Notes = append(r.Notes, fmt.Sprintf("R7 scope %q: %d functions (%d of them methods reached through an interface handed to code outside the module)", sc.label, len(set), len(set)-nCG))
 		bySyntax := r.P.fnBySyntax()
 
 		// ---- P1 ----
